@@ -24,7 +24,7 @@ def observe(tf, root, pl, via_cli, out):
     raw = open(out, "rb").read()
     meta = refspec.lenient_decode(raw)
     info = meta[b"info"]
-    obs = {"piece length": info.get(b"piece length"), "pieces": info.get(b"pieces"),
+    obs = {"raw": raw, "piece length": info.get(b"piece length"), "pieces": info.get(b"pieces"),
            "length": info.get(b"length"), "name": info.get(b"name")}
     if b"files" in info:
         obs["files"] = [(tuple(e[b"path"]), e[b"length"], e.get(b"attr"))
@@ -103,6 +103,11 @@ def run_case(run, tf, drv, files, pl, single, via_cli, tag):
             break
     drv.ask("v1 0 %d %s" % (pl, " ".join(b.token() for _, b in order)),
             (case, obs["pieces"], exp["pieces"]))
+    if not via_cli:
+        from harness.props import creation as cr
+        name = files[0][0].split("/")[-1] if single else "payload"
+        cr.ask_createfull(drv, ("createfull", case, obs["raw"]), "v1", files, pl, single, name,
+                          obs["raw"])
     run.case(shape_key(files, pl, single), nontrivial(files, pl, single),
              sample=case, classes=[f"files={len(files)}", f"pl={pl}",
                                    "single" if single else "dir",
@@ -146,7 +151,8 @@ def run(tier, seed, replay=None):
                             continue
                         files = [("a", Blob.rand(1, cl[a])), ("b", Blob.rand(2, cl[b]))]
                         run_case(run, tf, drv, files, pl, False, False, "grid")
-    for (case, impl_pieces, spec_pieces), _, out in drv.run():
+    from harness.props import creation as cr
+    for (case, impl_pieces, spec_pieces), _, out in cr.settle_createfull(run, drv.run()):
         run.model_checked += 1
         parts = out.split(" ")
         if parts[0] == "ERR":
